@@ -83,6 +83,7 @@ class C25(Property):
     drivers = ["Drivers/C25.lean"]
     translators = [cmdtmpl.generate]
     quick_budget_s = 900
+    thorough_budget_s = 3600
     rule = ("(1) render: random workdir/environment/command through the real _build_shell_command, create_command and "
             "CommandTemplateMap.get_command vs the Lean renderers assembled from the generated template pieces; (2) lexer: random "
             "lines over quotes, backslash, $, backtick, operators, blanks, unicode read by the Lean sh lexer and by /bin/sh (argv printed "
@@ -743,11 +744,11 @@ class C25(Property):
         limit_failures(ctx)
         self._setup(ctx)
         big = ctx.tier == "thorough" or ctx.mode == "search"
-        lines, expect, meta = self.render_cases(ctx, 1500 if big else 300)
+        lines, expect, meta = self.render_cases(ctx, 1000 if big else 300)
         l2, e2, m2 = self.framing_cases(ctx, 400 if big else 90)
         lines, expect, meta = lines + l2, expect + e2, meta + m2
-        self.lexer_cases(ctx, 1500 if big else 250)
-        self.exec_cases(ctx, 300 if big else 16)
+        self.lexer_cases(ctx, 800 if big else 250)
+        self.exec_cases(ctx, 120 if big else 16)
         l3, e3, m3 = self.policy_cases(ctx, 12 if big else 3, 4 if big else 2)
         lines, expect, meta = lines + l3, expect + e3, meta + m3
         self.output_cases(ctx, 40 if big else 6)
